@@ -561,6 +561,8 @@ fn abort_signature(desc: &str, stderr: &str, text: &str, include_cycle: bool) ->
     } else {
         "ordinary-input"
     };
+    // under the memory limit of the workers the abort of a failed allocation may not even get its message out
+    let what = if shape == "huge-bind-group-index" && what == "signal 6" { "allocation-failure".to_string() } else { what };
     format!("abort:{}:{}", what, shape)
 }
 
@@ -847,4 +849,86 @@ fn replay(ctx: &Ctx, witness: &Json) -> Report {
 }
 
 #[allow(dead_code)]
+
+// ------------------------------------------------------------------------------------------------
+// Witness minimiser (developer tool): `verif-harness c08min <replay.json>` prints a witness whose entry file is
+// reduced by line and token deletion while one configuration still panics with the same signature.
+// ------------------------------------------------------------------------------------------------
+
+pub fn minimize_main(args: &[String]) {
+    crate::par::install_panic_hook();
+    let text = std::fs::read_to_string(&args[0]).expect("replay file");
+    let j = crate::json::parse(&text).expect("json");
+    let target = j.get_str("signature").unwrap_or("").to_string();
+    let witness = j.get("witness").cloned().unwrap_or(Json::Null);
+    let corpus = Corpus::load();
+    let mut case = Case::from_json(&witness, &corpus);
+    let want = target.strip_prefix("panic:").unwrap_or("").to_string();
+    if want.is_empty() {
+        eprintln!("only panic signatures can be minimised in process");
+        std::process::exit(2);
+    }
+    let child = std::thread::Builder::new().stack_size(512 << 20).spawn(move || {
+        let cfgs = configurations(case.text());
+        let probe = |case: &Case, cfg: &Opts| -> bool {
+            let mut opts = cfg.clone();
+            opts.defines = case.defines.clone();
+            opts.budget = budget_for(case.files.total_len() as u64 + 64);
+            matches!(rs::compile_steps(&case.files, &case.entry, &opts).0, Outcome::Panic(c) if c.signature() == want)
+        };
+        let Some(ci) = cfgs.iter().position(|c| probe(&case, c)) else {
+            eprintln!("the witness does not reproduce {}", want);
+            std::process::exit(1);
+        };
+        let cfg = cfgs[ci].clone();
+        let entry = case.entry.clone();
+        let set_text = |case: &mut Case, t: &str| {
+            for f in case.files.0.iter_mut() {
+                if f.0 == entry {
+                    f.1 = t.to_string();
+                }
+            }
+        };
+        // drop the other files when they are not needed
+        let mut alone = case.clone();
+        alone.files = Files::single(&case.entry, case.text());
+        if probe(&alone, &cfg) {
+            case = alone;
+        }
+        for pass in 0..2 {
+            let mut units: Vec<String> = if pass == 0 { case.text().split_inclusive('\n').map(|l| l.to_string()).collect() } else { soup::coarse_tokens(case.text()) };
+            let mut chunk = (units.len() / 2).max(1);
+            loop {
+                let mut i = 0;
+                let mut removed_any = false;
+                while i < units.len() {
+                    let end = (i + chunk).min(units.len());
+                    let mut candidate = units.clone();
+                    candidate.drain(i..end);
+                    let mut c2 = case.clone();
+                    set_text(&mut c2, &candidate.concat());
+                    if probe(&c2, &cfg) {
+                        units = candidate;
+                        case = c2;
+                        removed_any = true;
+                    } else {
+                        i = end;
+                    }
+                }
+                if chunk == 1 && !removed_any {
+                    break;
+                }
+                if !removed_any {
+                    chunk = (chunk / 2).max(1);
+                }
+            }
+        }
+        case.max_configs = Some(ci + 1);
+        let mut j = case.to_json();
+        j = j.set("kind", format!("minimised:{}", case.kind));
+        println!("{}", Json::obj().set("signature", format!("panic:{}", want)).set("config", format!("{:?}", cfg.target)).set("config_index", ci).set("witness", j).to_string_compact());
+    });
+    child.expect("spawn").join().ok();
+}
+
 fn unused(_: Caught) {}
